@@ -70,6 +70,7 @@ ATTR_POOL = [
     ("mode", ["literal", ["a", "b", 1]]),
     ("pair", ["tuple", [["int"], ["str"]]]),
     ("seq", ["vtuple", ["int"]]),
+    ("combo", ["tuple", [["int"], ["list", ["int"]]]]),
     ("level", ["bounded", "int", {"ge": 0}]),
     ("title", ["validated", "nonempty_str"]),
     ("nums", ["list", ["int"]]),
